@@ -8,7 +8,8 @@
     `DNA.__init__` (geno/base.py:533-595) is re-introduced where it is observable (which nodes
     exist for the mutators: `countNodes`, `swapCands`).
     Every subchoice entry carries its *belief* (the `subchoice_index` of the spec the real node is
-    bound to); `aligned` says that beliefs agree with positions (finding F21: `Swap` breaks it).
+    bound to); `aligned` says that beliefs agree with positions (finding F21, fixed in c8b4917:
+    `Swap` used to break it; it now re-binds the two swapped entries, `rebindEntry`).
   * randomness is an explicit oracle stream `List Ev` (recorded from the real `random.Random`):
     every draw checks the kind and the argument size of the recorded call (`Err.desync` otherwise),
     so the *sequence of PRNG calls* made by the code is part of the correspondence.
@@ -398,9 +399,30 @@ mutual
     | _, _ => []
 end
 
+mutual
+  def rebind : DNA → DNA
+    | .space ds => .space (rebindAll ds)
+    | .choices subs => .choices (rebindFrom 0 subs)
+    | .sub b v d => .sub b v (rebind d)
+    | .float v => .float v
+  def rebindAll : List DNA → List DNA
+    | [] => []
+    | d :: ds => rebind d :: rebindAll ds
+  def rebindFrom : Nat → List DNA → List DNA
+    | _, [] => []
+    | i, .sub _ v d :: rest => .sub i v (rebind d) :: rebindFrom (i + 1) rest
+    | i, d :: rest => rebind d :: rebindFrom (i + 1) rest
+end
+
+/-- `child.use_spec(parent_node.spec.subchoice(i))` (mutators.py:212-215): the entry placed at
+position `i` is bound to subchoice `i`, recursively. -/
+def rebindEntry (i : Nat) : DNA → DNA
+  | .sub _ v d => .sub i v (rebind d)
+  | d => rebind d
+
 def swapList (l : List DNA) (i j : Nat) : List DNA :=
   match l[i]?, l[j]? with
-  | some a, some b => (l.set i b).set j a
+  | some a, some b => (l.set i (rebindEntry i b)).set j (rebindEntry j a)
   | _, _ => l
 
 mutual
@@ -507,21 +529,6 @@ def selLast (n : NSpec) : Op := fun pop => pure (pop.drop (pop.length - numOutpu
 which ends in `use_spec` (validation + re-binding); the model mirrors that with `checked`. -/
 
 def popAligned (pop : Pop) : Bool := pop.all (fun x => aligned x.dna)
-
-mutual
-  def rebind : DNA → DNA
-    | .space ds => .space (rebindAll ds)
-    | .choices subs => .choices (rebindFrom 0 subs)
-    | .sub b v d => .sub b v (rebind d)
-    | .float v => .float v
-  def rebindAll : List DNA → List DNA
-    | [] => []
-    | d :: ds => rebind d :: rebindAll ds
-  def rebindFrom : Nat → List DNA → List DNA
-    | _, [] => []
-    | i, .sub _ v d :: rest => .sub i v (rebind d) :: rebindFrom (i + 1) rest
-    | i, d :: rest => rebind d :: rebindFrom (i + 1) rest
-end
 
 /-- the tail of `DNA.from_dict`: `dna.use_spec(dna_spec)` raises `ValueError` on an invalid tree
 and binds every node to the decision point of its position. -/
